@@ -11,7 +11,8 @@ def drive (body impl : String) : Verdict :=
   let bad : List String :=
     (if get "dup" == "0" then [] else [s!"[ran-twice] {get "dup"} of {total} tasks executed more than once ({body})"]) ++
     (if get "lost" == "0" then [] else [s!"[lost] {get "lost"} of {total} tasks never ran although the event loops kept scheduling for seconds ({body})"]) ++
+    (if get "unfinished" == "0" then [] else [s!"[unfinished] {get "unfinished"} of {total} tasks were started but did not finish within seconds although the event loops kept running ({body})"]) ++
     (if (words impl).any (fun x => x == "ABORT" || x == "HANG") then [s!"[hang-or-abort] {impl}"] else [])
-  { modelOut := s!"once={total} lost=0 dup=0", spec := [("C01", bad.isEmpty, joinWith " ; " bad)],
+  { modelOut := s!"once={total} lost=0 dup=0 unfinished=0", spec := [("C01", bad.isEmpty, joinWith " ; " bad)],
     labels := [s!"loops{w.headD ""}", s!"threads{w.getD 1 ""}", s!"prio-{w.getD 3 ""}", s!"work-{w.getD 4 ""}"] }
 end Oc.Driver.Once
